@@ -49,7 +49,7 @@ def strategy(name):
     valid = gen.valid_numbers(name)
     raw = st.sampled_from(gen.seeds(name))
     dec = gen.decorations(name, st.one_of(valid, valid, raw))
-    x = st.one_of(dec, dec, dec, gen.decorations(name, dec), gen.edits(st.one_of(valid, raw)), raw)
+    x = st.one_of(dec, dec, dec, gen.decorations(name, dec), gen.edits(st.one_of(valid, raw)), gen.newline_edits(st.one_of(valid, raw, dec)), raw)
     return st.fixed_dictionaries({'mod': st.just(name), 'x': x.map(core.enc), 'opts': gen.option_strategy(name),
                                   'clock': gen.clock_strategy(name)})
 
